@@ -58,9 +58,11 @@ LIT_SRC = {
 FEATS = [(), ('BUILTIN_FUNCTIONS',), ('EQUALITY_OPERATORS',), ('LISTS',), ('BUILTIN_FUNCTIONS', 'EQUALITY_OPERATORS', 'LISTS')]
 PLAN = {
     'quick': [('core', 2, (('x', 'y'),), (('x', 'y'),)), ('jumps', 3, (('x',),), (('x',),)), ('try', 3, (('x',),), (('x',),)),
-              ('clos', 2, (('x',),), (('x',),)), ('expr', 2, (('x',),), (('x',),)), ('state', 2, (('x', 'y'),), (('x', 'y'),))],
+              ('clos', 2, (('x',),), (('x',),)), ('expr', 2, (('x',),), (('x',),)), ('state', 2, (('x', 'y'),), (('x', 'y'),)),
+              ('targets', 2, (('x', 'y'),), (('x', 'y'),)), ('compidx', 3, ((),), ((),)), ('partial', 3, (('x',),), (('x',),))],
     'thorough': [('core', 3, (('x', 'y'),), (('x', 'y'),)), ('jumps', 4, (('x',),), (('x',),)), ('try', 4, (('x',),), (('x',),)),
-                 ('clos', 3, (('x',),), (('x',),)), ('expr', 3, (('x',),), (('x',),)), ('state', 3, (('x', 'y'),), (('x', 'y'),))],
+                 ('clos', 3, (('x',),), (('x',),)), ('expr', 3, (('x',),), (('x',),)), ('state', 3, (('x', 'y'),), (('x', 'y'),)),
+                 ('targets', 3, (('x', 'y'),), (('x', 'y'),)), ('compidx', 4, ((),), ((),)), ('partial', 4, (('x',),), (('x',),))],
 }
 LITN = {'quick': 2, 'thorough': 3}
 _S = {'tier': 'quick'}
@@ -93,7 +95,7 @@ def items(tier, seed):
 def item_source(item):
   if item[0] == 'menu':
     _, name, body, pro, epi, fi, fut = item
-    src = ps.source(body, pro=pro, epi=epi, pid=0, helpers=(name == 'callee'))
+    src = ps.source(body, pro=pro, epi=epi, pid=0, helpers=(name in ('callee', 'partial')))
   else:
     _, combo, ctx, fi, fut = item
     lines = []
